@@ -5,7 +5,12 @@
    The model is the code as /repo has it after the fix: commits 4d7bbba and fcf888d (proposed_fixes/C13-1 and C13-2):
      a_mf_lins / a_mf_linz : second test is  x >= b  (was x > b: x = a = b computed 0/0)
      a_mf_tri              : third arm  x == b -> 1  (was: b == c gave 0 at the peak); same shape as a_mf_trap
-   The unrepaired bodies are kept as mf_lins_orig / mf_linz_orig / mf_tri_orig for the refutation lemmas. *)
+   and proposed_fixes/C13-4-mf-s-z-boundary-first.diff:
+     a_mf_s / a_mf_z       : the end points are tested BEFORE the computed midpoint (was: midpoint first; in binary64 the
+                             computed (a+b)/2 can round onto an end point, which then fell into the quadratic branch of the
+                             other half: a_mf_s(b; a, b) = 2 for adjacent a < b)
+   The unrepaired bodies are kept as mf_lins_orig / mf_linz_orig / mf_tri_orig / mf_s_orig / mf_z_orig for the refutation
+   lemmas. *)
 From Coq Require Import ZArith List Bool.
 From LibaV Require Import Common.NumOps.
 Import ListNotations.
@@ -18,6 +23,7 @@ Section Model.
   Local Notation "x / y" := (div O x y) (at level 40, left associativity).
   Local Notation "x <? y" := (ltb O x y) (at level 70).
   Local Notation "x >? y" := (gtb O x y) (at level 70).
+  Local Notation "x <=? y" := (leb O x y) (at level 70).
   Local Notation "x >=? y" := (geb O x y) (at level 70).
   Local Notation "# z" := (ofZ O z%Z) (at level 0, z at level 0).
 
@@ -68,13 +74,26 @@ Section Model.
   Definition mf_linz_orig (x a b : T) : T :=
     if x <? a then #1 else if x >? b then #0 else (b - x) / (b - a).
 
+  (* repaired (C13-4): boundaries first, then the computed midpoint *)
   Definition mf_s (x a b : T) : T :=
+    if x <=? a then #0
+    else if x >=? b then #1
+    else if x >? (a + b) / #2 then #1 - #2 * rpow ((b - x) / (b - a)) #2
+    else #2 * rpow ((x - a) / (b - a)) #2.
+
+  Definition mf_z (x a b : T) : T :=
+    if x >=? b then #0
+    else if x <=? a then #1
+    else if x <? (a + b) / #2 then #1 - #2 * rpow ((x - a) / (b - a)) #2
+    else #2 * rpow ((b - x) / (b - a)) #2.
+  (* as found *)
+  Definition mf_s_orig (x a b : T) : T :=
     if x >? (a + b) / #2 then
       (if x <? b then #1 - #2 * rpow ((b - x) / (b - a)) #2 else #1)
     else
       (if x >? a then #2 * rpow ((x - a) / (b - a)) #2 else #0).
 
-  Definition mf_z (x a b : T) : T :=
+  Definition mf_z_orig (x a b : T) : T :=
     if x <? (a + b) / #2 then
       (if x >? a then #1 - #2 * rpow ((x - a) / (b - a)) #2 else #1)
     else
